@@ -177,7 +177,10 @@ def run(repo, rep):
         for n in [x for hf in repo.helper_closure(fi) for x in ast.walk(hf.node)]:
             new_ds_helper = isinstance(n, ast.Call) and norm(n.func).startswith('dsutils.') and len(n.args) == 3 and \
                 norm(n.func).split('.', 1)[1] in ds.functions and repo.is_helper(ds.functions[norm(n.func).split('.', 1)[1]])
-            if isinstance(n, ast.Call) and (norm(n.func) in ('dsutils.encode', 'dsutils.encode_element', 'dsutils.decode') or new_ds_helper):
+            # (the reader dsutils.decode wraps, met directly when a new dsutils helper was expanded in place: same three arguments)
+            reader = isinstance(n, ast.Call) and norm(n.func).split('.')[-1] == 'read_dataset' and len(n.args) == 3 \
+                and norm(n.func).split('.')[0] in ('filereader', 'pydicom')
+            if isinstance(n, ast.Call) and (norm(n.func) in ('dsutils.encode', 'dsutils.encode_element', 'dsutils.decode') or new_ds_helper or reader):
                 a0 = norm(n.args[0]) if n.args else ''
                 if n.args and isinstance(n.args[0], ast.Name):
                     # a local holding the argument: what it was computed from
